@@ -77,6 +77,25 @@ fn main() {
                     std::process::exit(2);
                 }
             };
+            let mut plan = plan;
+            // corpus first: the minimised replays of the defects found so far (DESIGN.md section 7) run before anything else
+            let corpus_dir = std::env::var("VERIF_CORPUS").unwrap_or("/verif/corpus/findings".into());
+            if let Ok(rd) = std::fs::read_dir(&corpus_dir) {
+                let mut files: Vec<_> = rd.filter_map(|e| e.ok()).map(|e| e.path()).filter(|p| p.extension().map(|x| x == "txt").unwrap_or(false)).collect();
+                files.sort();
+                let mut pre = vec![];
+                for f in files {
+                    let Ok(txt) = std::fs::read_to_string(&f) else { continue };
+                    let mut it = txt.lines();
+                    let Some(first) = it.next() else { continue };
+                    if !first.starts_with("# props:") || !first.split(|c| c == ' ' || c == ',').any(|t| t == prop) {
+                        continue;
+                    }
+                    pre.push(run::Case::new(format!("corpus:{}", f.file_name().unwrap().to_string_lossy()), it.map(|s| s.to_string()).collect()));
+                }
+                pre.extend(plan.cases);
+                plan.cases = pre;
+            }
             let (rule, exhaustive, per_line) = (plan.rule.clone(), plan.exhaustive, plan.per_line);
             let t0 = std::time::Instant::now();
             let o = run::run_cases(driver, plan.cases, workers, 3);
